@@ -94,8 +94,12 @@ def run(tier):
     for sqla, ka, sqlb, kb in PAIRS:
         for pat in pats:
             na = 4 if "Window(3)" not in sqla else 6
+            nb = 4 if "Window(3)" not in sqlb else 6
+            if "MATCH_RECOGNIZE" in sqla:      # process-wide pools are per scheduler thread: long alternating runs make two instances meet there
+                na = nb = 120
+                pat = pat * 40
             a = {"sql": sqla, "rows": [prow(rng, i + 1, ka) for i in range(na)]}
-            b = {"sql": sqlb, "rows": [prow(rng, i + 1, kb) for i in range(4 if "Window(3)" not in sqlb else 6)]}
+            b = {"sql": sqlb, "rows": [prow(rng, i + 1, kb) for i in range(nb)]}
             pairs.append({"meta": {"fam": "pair"}, "a": a, "b": b, "pattern": pat})
     seqfam.run_scenarios(res, pairs, "TraceIso", spec_dir=PIPE, tag="pair", sub="pair")
     res.cov["exhaustive"] = False
